@@ -205,9 +205,23 @@ func (fr *Frame) appendCall(in *ssa.Call) *GVal {
 
 // ---- spec function calls ----
 
+var specIntrinsics = map[string]bool{"specObjPut": true, "specObjKeyAt": true}
+
 func (fr *Frame) specCall(callee *ssa.Function, args []*GVal, rt types.Type) *GVal {
 	ex := fr.ex
 	name := callee.Name()
+	switch name {
+	case "specObjPut":
+		m := fr.mapTerm(args[0])
+		return &GVal{T: mapPut(ex.p.w, m, fr.term(args[1]), fr.term(args[2])), Typ: rt}
+	case "specObjKeyAt":
+		m := fr.mapTerm(args[0])
+		mi := ex.p.w.MapInfoOfSort(m.S)
+		keyAt := "keyAt_" + mi.Name
+		ex.p.DeclareFun(keyAt, []*Sort{mi.S, SInt}, mi.K)
+		ex.p.DeclareFun("idxOf_"+mi.Name, []*Sort{mi.S, mi.K}, SInt)
+		return &GVal{T: App(keyAt, mi.K, m, fr.term(args[1])), Typ: rt}
+	}
 	sd := ex.p.specSig(callee)
 	ts := make([]*Term, len(args))
 	for i, a := range args {
@@ -440,11 +454,10 @@ func (fr *Frame) contractCall(in *ssa.Call, callee *ssa.Function, c *Contract, a
 		}
 	}
 	envPost := &Env{fr: fr, vars: post, st: ex.st, old: before, oldVars: vars}
-	var facts []*Term
 	for _, cl := range c.Ensures {
-		facts = append(facts, fr.evalBool(cl.Expr, envPost))
+		// one fact per clause, so that hypothesis slicing can drop the heavy ones individually
+		ex.addFact(Implies(fr.cur, fr.evalBool(cl.Expr, envPost)))
 	}
-	ex.addFact(Implies(fr.cur, And(facts...)))
 	// error tracking
 	fr.trackErr(name, res)
 	if c.Fresh {
@@ -565,11 +578,9 @@ func (fr *Frame) dynamicCall(in *ssa.Call) *GVal {
 			post[rn[i]] = g
 		}
 		envPost := &Env{fr: fr, vars: post, st: ex.st, old: ex.st, oldVars: vars}
-		var facts []*Term
 		for _, cl := range c.Ensures {
-			facts = append(facts, fr.evalBool(cl.Expr, envPost))
+			ex.addFact(Implies(And(fr.cur, Eq(fv, id)), fr.evalBool(cl.Expr, envPost)))
 		}
-		ex.addFact(Implies(And(fr.cur, Eq(fv, id)), And(facts...)))
 		if len(c.Assigns) > 0 || !c.HasAssigns {
 			ex.unsupp("dynamic callee %s with non-empty frame", name)
 		}
@@ -702,4 +713,12 @@ func (fr *Frame) bindGhosts(c *Contract, calleeKey string, vars map[string]*GVal
 		env.dbgHead = in.Block()
 		vars[gp[0]] = &GVal{T: fr.evalTerm(e, env), Typ: typeByName(ex.p, gp[1])}
 	}
+}
+
+// mapPut is the functional model of m[k] = v (shared by MapUpdate and the specObjPut intrinsic).
+func mapPut(w *World, cur, k, v *Term) *Term {
+	mi := w.MapInfoOfSort(cur.S)
+	dom := w.MpDom(cur)
+	nsize := Ite(Select(dom, k), w.MpSize(cur), Add(w.MpSize(cur), IntLit(1)))
+	return w.MkMap(mi, Store(dom, k, TTrue), Store(w.MpVal(cur), k, v), nsize, TFalse)
 }
